@@ -21,6 +21,8 @@ func runApiSuite(suite string, rng *Rng, thorough bool, s *Sink) bool {
 	switch suite {
 	case "c09":
 		suiteC09(rng, thorough, s)
+	case "c05api":
+		suiteC05api(rng, thorough, s)
 	case "c10":
 		suiteC10(rng, thorough, s)
 	case "c11":
@@ -770,6 +772,27 @@ func suiteC11(rng *Rng, thorough bool, s *Sink) {
 			}
 			if sh.ping == "err" && len(dev.Frames) > 1 {
 				s.Violate(op, out, "the device id was queried although the ping was not answered")
+			}
+		}
+	}
+}
+
+// suiteC05api: C05's API clause — every register of every family x device error flags (with / without
+// trailing payload) through the real register API; errors classified with errors.Is, name checked.
+func suiteC05api(rng *Rng, thorough bool, s *Sink) {
+	pool := buildPool()
+	for idx, it := range pool {
+		reg := it.reg()
+		for _, o := range []outcome{
+			{"err:unknown-id", &DevAnswer{1, nil}}, {"err:not-supported", &DevAnswer{2, nil}}, {"err:parameter-error", &DevAnswer{4, nil}},
+			{"err:unknown-id", &DevAnswer{1, []byte{0}}}, {"err:not-supported", &DevAnswer{2, rng.Bytes(2)}}, {"err:parameter-error", &DevAnswer{4, rng.Bytes(4)}},
+			{"err:other", nil},
+		} {
+			op := fmt.Sprintf("%s %d %s", opOfKind[it.kind], idx, o.tok)
+			out, _ := readOne(it, o)
+			s.Line(fmt.Sprintf("kind%d-%s", it.kind, o.tok), op, out)
+			if v := oracleC09(it, reg, o, out); v != "" {
+				s.Violate(op, out, v)
 			}
 		}
 	}
